@@ -15,15 +15,23 @@ Mod(s, i, f, o) == [s EXCEPT !.inv = i, !.of = f, !.oi = o]
 Names == {"a", "m", "z", "_u"}
 B == S("t_dbl", <<L("e", 1)>>)
 
-Pairs == {pq \in Names \X Names : pq[1] # pq[2]}
-\* forwarding a parameter under its own name (q=$q) is not generated: caller
-\* arguments are visible to nested macros without it
+\* every ordered pair, the same name on both sides included: forwarding a parameter under its own name
+\* (`m:in q=$q`, `m:in q=$q(d)`, `m:in q=(d)`) is the most natural way to write a wrapper macro, and the
+\* arguments of an invocation are resolved in the caller's frame (BindArgs) whatever they are called
+Pairs == Names \X Names
+\* pairs of distinct names in both lexical orders, for the nested invocations with two arguments
+Pairs2 == {<<"a", "z">>, <<"z", "a">>, <<"m", "_u">>, <<"_u", "m">>}
 MacroNames ==
          {"m:r_" \o n : n \in Names} \cup {"m:rd_" \o n : n \in Names}
     \cup {"m:d", "m:l", "m:n", "m:e"}
     \cup {"m:f_" \o pq[1] \o "_" \o pq[2] : pq \in Pairs}
     \cup {"m:fd_" \o pq[1] \o "_" \o pq[2] : pq \in Pairs}
     \cup {"m:g_" \o pq[1] \o "_" \o pq[2] : pq \in Pairs}
+    \cup {"m:fr_" \o pq[1] \o "_" \o pq[2] : pq \in Pairs}
+    \cup {"m:fq_" \o n : n \in Names} \cup {"m:fqd_" \o n : n \in Names}
+    \cup {"m:two_" \o pq[1] \o "_" \o pq[2] : pq \in Pairs2}
+    \cup {"m:sw_" \o pq[1] \o "_" \o pq[2] : pq \in Pairs2}
+    \cup {"m:sh_" \o pq[1] \o "_" \o pq[2] : pq \in Pairs2}
     \cup {"m:pp_" \o n : n \in Names}
     \cup {"m:pi_" \o n : n \in Names}
 
@@ -41,6 +49,21 @@ Body(mn) ==
          [] Find2("m:f_") # {}  -> LET pq == One(Find2("m:f_")) IN <<S("m:r_" \o pq[2], <<R(pq[2], pq[1])>>)>>
          \* forwarding with a default, to a macro with its own default
          [] Find2("m:fd_") # {} -> LET pq == One(Find2("m:fd_")) IN <<S("m:rd_" \o pq[2], <<RD(pq[2], pq[1], 9)>>)>>
+         \* forwarding without a default, to a macro with its own default: `q=$p` is an error if p is absent
+         \* (the inner default stands in for an absent q, not for an argument that cannot be resolved)
+         [] Find2("m:fr_") # {} -> LET pq == One(Find2("m:fr_")) IN <<S("m:rd_" \o pq[2], <<R(pq[2], pq[1])>>)>>
+         \* the (d) form on a nested invocation: the caller's value for the same name, else d
+         [] Find1("m:fq_") # {}  -> LET n == One(Find1("m:fq_")) IN <<S("m:r_" \o n, <<D(n, 5)>>)>>
+         [] Find1("m:fqd_") # {} -> LET n == One(Find1("m:fqd_")) IN <<S("m:rd_" \o n, <<D(n, 5)>>)>>
+         \* a macro with two parameters, and nested invocations giving both: every argument is resolved in
+         \* the caller's frame, also when the same invocation binds the name it refers to (exchanged
+         \* parameters `p=$q(8) q=$p(6)`; one parameter shadowed by a literal `p=$q(8) q=7`)
+         [] Find2("m:two_") # {} -> LET pq == One(Find2("m:two_")) IN
+                                    <<S("t_add", <<L("e", 1), R("c", pq[1])>>), S("t_add", <<L("e", 2), RD("c", pq[2], 3)>>)>>
+         [] Find2("m:sw_") # {}  -> LET pq == One(Find2("m:sw_")) IN
+                                    <<S("m:two_" \o pq[1] \o "_" \o pq[2], <<RD(pq[1], pq[2], 8), RD(pq[2], pq[1], 6)>>)>>
+         [] Find2("m:sh_") # {}  -> LET pq == One(Find2("m:sh_")) IN
+                                    <<S("m:two_" \o pq[1] \o "_" \o pq[2], <<RD(pq[1], pq[2], 8), L(pq[2], 7)>>)>>
          \* two levels of forwarding: p -> "m" or "a" -> q, inside a pipeline
          [] Find2("m:g_") # {}  -> LET pq == One(Find2("m:g_"))
                                       mid == IF pq[1] = "m" \/ pq[2] = "m" THEN (IF pq[1] = "a" \/ pq[2] = "a" THEN "z" ELSE "a") ELSE "m"
